@@ -890,7 +890,9 @@ func RDialectSib(c *core.Ctx) {
 	}
 	info := syn.TypesInfo
 	// predicate methods: niladic methods of *parser named use* returning bool
-	predsIn := func(n ast.Node) []string {
+	predDepth := 0
+	var predsIn func(n ast.Node) []string
+	predsIn = func(n ast.Node) []string {
 		set := map[string]bool{}
 		ast.Inspect(n, func(x ast.Node) bool {
 			call, ok := x.(*ast.CallExpr)
@@ -903,6 +905,21 @@ func RDialectSib(c *core.Ctx) {
 			}
 			if sig, ok := fn.Type().(*types.Signature); ok && sig.Recv() != nil && sig.Results().Len() == 1 {
 				if b, ok := sig.Results().At(0).Type().Underlying().(*types.Basic); ok && b.Kind() == types.Bool {
+					// a predicate defined as a combination of others (useASCIIShorthand = useOptionE() || useRE2())
+					// stands for those
+					if d, _ := p.DeclOf(fn); d != nil && d.Body != nil && len(d.Body.List) == 1 && predDepth < 3 {
+						if rs, ok := d.Body.List[0].(*ast.ReturnStmt); ok && len(rs.Results) == 1 {
+							predDepth++
+							inner := predsIn(rs.Results[0])
+							predDepth--
+							if len(inner) > 0 {
+								for _, s := range inner {
+									set[s] = true
+								}
+								return true
+							}
+						}
+					}
 					set[fn.Name()] = true
 				}
 			}
@@ -933,24 +950,48 @@ func RDialectSib(c *core.Ctx) {
 			return nil, nil
 		}
 		out := map[rune][]ast.Stmt{}
+		// the function's own arms, then those of the parser methods it calls (an arm may hand the letter on to
+		// a helper with a switch of its own); for each letter the first arm that consults a predicate wins
+		units := []*ast.FuncDecl{fd}
 		ast.Inspect(fd.Body, func(n ast.Node) bool {
-			cc, ok := n.(*ast.CaseClause)
-			if !ok {
-				return true
-			}
-			for _, e := range cc.List {
-				if tv, ok := info.Types[e]; ok && tv.Value != nil {
-					if b, ok := tv.Type.Underlying().(*types.Basic); ok && (b.Kind() == types.Int32 || b.Kind() == types.UntypedRune) {
-						if v, ok := core.ConstInt(info, e); ok {
-							if _, dup := out[rune(v)]; !dup {
-								out[rune(v)] = cc.Body
+			if call, ok := n.(*ast.CallExpr); ok {
+				if fn := core.Callee(info, call); fn != nil && fn.Pkg() == syn.Types {
+					if d, _ := p.DeclOf(fn); d != nil && d.Body != nil && d != fd && d.Recv != nil {
+						dup := false
+						for _, u := range units {
+							if u == d {
+								dup = true
 							}
+						}
+						if !dup && len(units) < 12 {
+							units = append(units, d)
 						}
 					}
 				}
 			}
 			return true
 		})
+		for _, u := range units {
+			ast.Inspect(u.Body, func(n ast.Node) bool {
+				cc, ok := n.(*ast.CaseClause)
+				if !ok {
+					return true
+				}
+				for _, e := range cc.List {
+					if tv, ok := info.Types[e]; ok && tv.Value != nil {
+						if b, ok := tv.Type.Underlying().(*types.Basic); ok && (b.Kind() == types.Int32 || b.Kind() == types.UntypedRune) {
+							if v, ok := core.ConstInt(info, e); ok {
+								old, dup := out[rune(v)]
+								if !dup || (len(armPreds(old)) == 0 && len(armPreds(cc.Body)) > 0) {
+									out[rune(v)] = cc.Body
+								}
+							}
+						}
+					}
+				}
+				return true
+			})
+		}
 		return out, fd
 	}
 	outside, fdOut := arms("parser.scanBackslash")
